@@ -55,19 +55,53 @@ Proof.
   destruct (builtin_type (snd r) || builtin_function (snd r)); simpl; intuition; try discriminate; subst; auto.
 Qed.
 
-Lemma annotation_deps_In : forall t z, Forall ref_ok (ty_refs t) ->
+(* no generic on a side of a union: X | None, X | Y | Z are fine, List[X] | None is not *)
+Fixpoint flat_ty (t : ty) : bool :=
+  match t with
+  | TRef _ | TNone | TStr => true
+  | TUnion a b => flat_ty a && flat_ty b
+  | TGen1 _ _ | TGen2 _ _ _ => false
+  end.
+Fixpoint unions_flat (t : ty) : bool :=
+  match t with
+  | TGen1 _ a => unions_flat a
+  | TGen2 _ a b => unions_flat a && unions_flat b
+  | TUnion a b => flat_ty a && flat_ty b
+  | TRef _ | TNone | TStr => true
+  end.
+Definition ty_ok (t : ty) : Prop := Forall ref_ok (ty_refs t) /\ unions_flat t = true.
+(* no generic on a side of a union (List[X] | None): see C13_generic_in_union_refuted *)
+Definition unions_flat_class (c : class) : Prop :=
+  Forall (fun t => unions_flat t = true) (flat_map member_annotations (c_members c)).
+
+Lemma expr_deps_In : forall t z, flat_ty t = true -> Forall ref_ok (ty_refs t) ->
+  (In z (expr_annotation_deps default_options t) <-> In z (ty_refs t) /\ is_builtin z = false).
+Proof.
+  induction t; simpl; intros z F H; try discriminate; try tauto.
+  - inversion H; subst. rewrite dep_of_name_In by assumption. intuition; subst; auto.
+  - apply andb_true_iff in F as [F1 F2]. apply Forall_app in H as [H1 H2].
+    rewrite !in_app_iff, IHt1, IHt2 by assumption. tauto.
+Qed.
+
+Lemma annotation_deps_In : forall t z, ty_ok t ->
   (In z (type_annotation_deps default_options t) <-> In z (ty_refs t) /\ is_builtin z = false).
 Proof.
-  induction t; simpl; intros z H.
+  induction t; simpl; intros z [H F]; simpl in *.
   - inversion H; subst. rewrite dep_of_name_In by assumption. intuition; subst; auto.
-  - apply IHt; assumption.
-  - apply Forall_app in H as [H1 H2]. rewrite !in_app_iff, IHt1, IHt2 by assumption. tauto.
-  - apply Forall_app in H as [H1 H2]. rewrite !in_app_iff, IHt1, IHt2 by assumption. tauto.
+  - apply IHt; split; assumption.
+  - apply Forall_app in H as [H1 H2]. apply andb_true_iff in F as [F1 F2].
+    rewrite !in_app_iff, IHt1, IHt2 by (split; assumption). tauto.
+  - apply Forall_app in H as [H1 H2]. apply andb_true_iff in F as [F1 F2].
+    assert (In z (expr_annotation_deps default_options t1 ++ expr_annotation_deps default_options t2) <->
+            In z (ty_refs t1 ++ ty_refs t2) /\ is_builtin z = false) as X.
+    { rewrite !in_app_iff, !expr_deps_In by assumption. tauto. }
+    destruct t1; simpl in F1; try discriminate; exact X.
   - tauto.
   - tauto.
 Qed.
 
-Lemma opt_annotation_deps_In : forall o z, Forall ref_ok (opt_refs o) ->
+Definition opt_ok (o : option ty) : Prop := match o with Some t => ty_ok t | None => True end.
+Lemma opt_annotation_deps_In : forall o z, opt_ok o ->
   (In z (opt_annotation_deps default_options o) <-> In z (opt_refs o) /\ is_builtin z = false).
 Proof. intros [t|] z H; simpl; [apply annotation_deps_In; assumption | tauto]. Qed.
 
@@ -85,16 +119,23 @@ Proof.
   - destruct (md_ret md); simpl; auto using app_nil_r.
 Qed.
 
-Lemma member_type_hints_In : forall m z, Forall ref_ok (flat_map ty_refs (member_annotations m)) ->
+Definition member_ok (m : member) : Prop := Forall ty_ok (member_annotations m).
+
+Lemma member_type_hints_In : forall m z, member_ok m ->
   (In z (member_type_hints default_options m) <-> In z (flat_map ty_refs (member_annotations m)) /\ is_builtin z = false).
 Proof.
-  intros m z; rewrite member_annotations_refs. destruct m as [a t | md | x]; simpl; intros H.
-  - apply annotation_deps_In; assumption.
-  - apply Forall_app in H as [H1 H2]. rewrite !in_app_iff, opt_annotation_deps_In by assumption.
+  intros m z; rewrite member_annotations_refs. unfold member_ok. destruct m as [a t | md | x]; simpl; intros H.
+  - inversion H; subst. apply annotation_deps_In; assumption.
+  - assert (Forall opt_ok (md_params md ++ [md_ret md])) as H'.
+    { clear - H. induction (md_params md ++ [md_ret md]) as [| o r IH]; [constructor|].
+      simpl in H. destruct o; simpl in H; constructor; simpl; auto.
+      - inversion H; auto.
+      - inversion H; auto. }
+    clear H. apply Forall_app in H' as [H1 H2]. inversion H2 as [| ? ? Hr _]; subst.
+    rewrite !in_app_iff, opt_annotation_deps_In by assumption.
     assert (In z (flat_map (opt_annotation_deps default_options) (md_params md)) <->
             In z (flat_map opt_refs (md_params md)) /\ is_builtin z = false) as ->; [| tauto].
-    induction (md_params md) as [| o r IH]; simpl; [tauto|].
-    simpl in H1. apply Forall_app in H1 as [Ha Hb].
+    induction H1 as [| o r Ho Hr' IH]; simpl; [tauto|].
     rewrite !in_app_iff, opt_annotation_deps_In, IH by assumption. tauto.
   - tauto.
 Qed.
@@ -135,10 +176,10 @@ Proof.
   - rewrite andb_false_r; simpl; tauto.
 Qed.
 
-Theorem cbo_exact_partial : forall f c, plain_class c -> inst_positions_ok c ->
+Theorem cbo_exact_partial : forall f c, plain_class c -> unions_flat_class c -> inst_positions_ok c ->
   cbo_deps default_options f c = cbo_spec f c.
 Proof.
-  intros f c Hp Hi. unfold cbo_deps, cbo_spec. apply set_of_ext. intros z.
+  intros f c Hp Hu Hi. unfold cbo_deps, cbo_spec. apply set_of_ext. intros z.
   rewrite !filter_In. change (negb cbo_excludes_self) with false; rewrite orb_false_l.
   unfold plain_class, class_refs in Hp. apply Forall_app in Hp as [Hb Hp]. apply Forall_app in Hp as [Ha Hm].
   unfold raw_deps, named_classes. rewrite !in_app_iff.
@@ -152,8 +193,11 @@ Proof.
           In z (flat_map ty_refs (flat_map member_annotations (c_members c))) /\ is_builtin z = false) as ->.
   { unfold analyze_type_hints. change members_reached with true; cbv iota.
     rewrite flat_map_flat_map.
-    apply flat_map_In_ext with (P := fun z => is_builtin z = false) (Q := fun m => Forall ref_ok (flat_map ty_refs (member_annotations m))).
-    - rewrite flat_map_flat_map in Ha. apply Forall_flat_map in Ha. exact Ha.
+    apply flat_map_In_ext with (P := fun z => is_builtin z = false) (Q := member_ok).
+    - apply Forall_flat_map in Ha.
+      assert (Forall ty_ok (flat_map member_annotations (c_members c))) as Hk.
+      { unfold unions_flat_class in Hu. rewrite Forall_forall in Ha, Hu |- *. intros t Ht. split; auto. }
+      apply Forall_flat_map in Hk. exact Hk.
     - intros m Hm'. apply member_type_hints_In; assumption. }
   (* instantiations *)
   assert (In z (analyze_instantiation default_options f c) <->
@@ -184,6 +228,14 @@ Theorem cbo_qualified_refuted :
   cbo_deps default_options w_file w_inst = [] /\ cbo_spec w_file w_inst = [Qual (nm "pkg") (nm "C")].
 Proof. vm_compute. repeat split; reflexivity. Qed.
 
+(* the other defect that remains: a generic on a side of a union *)
+Definition w_union : class :=
+  Class (nm "K") [] [MAttr (nm "a") (TUnion (TGen1 (nm "List") (TRef (Plain (nm "X")))) TNone)].
+Theorem cbo_generic_in_union_refuted :
+  cbo_deps default_options (File [ImpFrom (nm "X")] [nm "K"]) w_union = [] /\
+  cbo_spec (File [ImpFrom (nm "X")] [nm "K"]) w_union = [Plain (nm "X")].
+Proof. vm_compute. split; reflexivity. Qed.
+
 (* hypotheses of cbo_exact_partial are satisfiable, with every form present *)
 Definition ex_file : file := File [ImpFrom (nm "X"); ImpFromAs (nm "Orig") (nm "Y")] [nm "L"; nm "K"].
 Definition ex_class : class :=
@@ -194,11 +246,12 @@ Definition ex_class : class :=
         Mention (KInst (Plain (nm "K"))) PBody; Mention (KInst (Plain (nm "len"))) PIfTest;
         Mention (KInst (Plain (nm "helper"))) PBody; Mention (KAttr (nm "self") (nm "x")) PAssignTarget])].
 Example cbo_exact_example :
-  plain_class ex_class /\ inst_positions_ok ex_class /\
+  plain_class ex_class /\ unions_flat_class ex_class /\ inst_positions_ok ex_class /\
   cbo_deps default_options ex_file ex_class = [Plain (nm "L"); Plain (nm "X"); Plain (nm "Y"); Plain (nm "Undefined")].
 Proof.
-  split; [| split].
+  split; [| split; [| split]].
   - unfold plain_class, ref_ok; vm_compute. repeat constructor; discriminate.
+  - unfold unions_flat_class; vm_compute. repeat constructor.
   - unfold inst_positions_ok; vm_compute. repeat constructor.
   - vm_compute. reflexivity.
 Qed.
